@@ -15,6 +15,7 @@ WTARGET = os.path.join(R.CACHE, 'witness-target')
 
 # (unit regex, fn regex) -> witness cases to try, in order
 CASES = [
+    (r'lenders\..*', r'.*', ['lenders']),
     (r'rank9', r'.*', ['rank9']),
     (r'rank_small.*', r'.*', ['rank_all']),
     (r'bfv\.copy.*', r'.*', ['bfv_copy']),
@@ -38,7 +39,7 @@ def build(repo=None):
     with open(os.path.join(WCRATE, 'Cargo.toml'), 'w') as fh:
         fh.write(toml)
     lock = os.path.join(repo, 'Cargo.lock')
-    if os.path.exists(lock) and not os.path.exists(os.path.join(WCRATE, 'Cargo.lock')):
+    if os.path.exists(lock):
         shutil.copy(lock, os.path.join(WCRATE, 'Cargo.lock'))
     env = dict(os.environ)
     env['CARGO_NET_OFFLINE'] = 'true'
